@@ -223,10 +223,20 @@ def close2 (rec : List (List Item) → List Bytes) (first : Option Item) : List 
     | some f => [.fact f (itemReq f ++ rec (ms.map dropLead))]
     | none => ms
 
+/-- `Regexp.Equal` on leading sub-expressions: two literals are equal when their RUNES are — the
+    fold-case flag is not compared (group P3, REVIEW2 F3: `A.|[aA]` is factored as `A(?:.|(?:))`, so
+    Go's tree requires the literal `A` there). -/
+def itemEq : Item → Item → Bool
+  | .lit a _, .lit b _ => a == b
+  | x, y => x == y
+
 /-- Does the node continue the current run of round 2? -/
 def run2Cond (first : Option Item) (nd : Node) : Bool :=
   match first with
-  | some f => leadingItem nd == some f && itemFactorable f
+  | some f =>
+    (match leadingItem nd with
+     | some i => itemEq f i
+     | none => false) && itemFactorable f
   | none => false
 
 /-- Round 2: runs of adjacent nodes with the same leading character class (or fixed repeat of one). -/
@@ -329,12 +339,12 @@ def altTopReq (branches : List (List Item)) : List Bytes :=
 def baseKey : Re → Option (List Nat)
   | .cls neg rs _ =>
     match clsItem neg rs with
-    | .lit [c] f => some [3, c.toNat, if f then 1 else 0]
+    | .lit [c] _ => some [3, c.toNat]
     | .other (some (0, k)) _ => some k
     | _ => none
   | .any => some [1]
   | .anyNL => some [2]
-  | .lit [c] f => some [3, c.toNat, if f then 1 else 0]
+  | .lit [c] _ => some [3, c.toNat]
   | _ => none
 
 mutual
